@@ -58,7 +58,9 @@ def cases(draw):
     elif opt == "namespaces_dict":
         val = draw(st.sampled_from(NS_DICTS))
     elif opt == "shapes_namespace":
-        val = draw(st.sampled_from(["http://my.shapes/ns/", "http://ex.org/shapes#"]))
+        val = draw(st.sampled_from(["http://my.shapes/ns/", "http://ex.org/shapes#", "http://ex.org/ns/shapes/"]))
+        if draw(st.booleans()):
+            cfg["namespaces_dict"] = draw(st.sampled_from(NS_DICTS))
     doc_prefixes = None
     if opt in ("namespaces_dict", "shapes_namespace", "disable_comments") and draw(st.integers(0, 2)) == 0:
         # the graph arrives as an rdflib Graph carrying its own prefix bindings, some of them using a label that the
@@ -165,11 +167,14 @@ def check(case):
         if opt == "file_output":
             return violation("the file written is not the text returned as string: the string parses, the file does not (%s); "
                              "%d lines in the file, %d in the string" % (e, out2.count("\n"), out1.count("\n")), {"opt:" + opt}, True)
-        if opt in ("disable_comments", "decimals", "instances_report_mode", "namespaces_dict"):
+        if opt in ("disable_comments", "decimals", "instances_report_mode", "namespaces_dict", "shapes_namespace"):
             # a presentation option turned a readable schema into an unreadable one: its constraints are not the same any more
             return violation("with %s=%r the output is no longer readable as ShExC (%s) while the output without it is\n--- without ---\n%s\n--- with ---\n%s" % (
                 opt, val, e, out1[:1500], out2[:1500]), {"opt:" + opt}, True)
         return discard("unparsable-output")
+    if "__dup_labels__" in b and "__dup_labels__" not in a and opt in ("disable_comments", "decimals", "instances_report_mode", "namespaces_dict", "shapes_namespace", "file_output"):
+        return violation("with %s=%r several shapes share one label (%s) although the labels are distinct without it\n--- without ---\n%s\n--- with ---\n%s" % (
+            opt, val, b["__dup_labels__"], out1[:1500], out2[:1500]), {"opt:" + opt}, True)
     if "__dup_labels__" in a or "__dup_labels__" in b:
         return discard("label-collision")
     labels = {"opt:" + opt}
